@@ -81,19 +81,74 @@ def get_expression_variables(
 def _get_ast_node_variables(node: ast.AST, aliases: Mapping) -> list[Variable]:
     variables: list[Variable] = []
 
-    todo = deque([node])
+    # Names bound by the expression itself (comprehension targets, lambda
+    # arguments, walrus targets) are not variables of the expression.
+    walrus_targets = frozenset(
+        child.target.id
+        for child in ast.walk(node)
+        if isinstance(child, ast.NamedExpr)
+    )
+
+    todo: deque[tuple[ast.AST, frozenset[str]]] = deque([(node, walrus_targets)])
     while todo:
-        node = todo.popleft()
+        node, bound = todo.popleft()
+        if isinstance(
+            node, (ast.ListComp, ast.SetComp, ast.GeneratorExp, ast.DictComp)
+        ):
+            inner = bound
+            for generator in node.generators:
+                todo.append((generator.iter, inner))
+                inner = inner | {
+                    child.id
+                    for child in ast.walk(generator.target)
+                    if isinstance(child, ast.Name)
+                }
+                todo.extend((cond, inner) for cond in generator.ifs)
+            if isinstance(node, ast.DictComp):
+                todo.extend([(node.key, inner), (node.value, inner)])
+            else:
+                todo.append((node.elt, inner))
+            continue
+        if isinstance(node, ast.Lambda):
+            args = node.args
+            todo.extend(
+                (default, bound)
+                for default in [*args.defaults, *args.kw_defaults]
+                if default is not None
+            )
+            todo.append(
+                (
+                    node.body,
+                    bound
+                    | {
+                        arg.arg
+                        for arg in [
+                            *args.posonlyargs,
+                            *args.args,
+                            *args.kwonlyargs,
+                            args.vararg,
+                            args.kwarg,
+                        ]
+                        if arg is not None
+                    },
+                )
+            )
+            continue
+        if isinstance(node, ast.NamedExpr):
+            todo.append((node.value, bound))
+            continue
         if not isinstance(node, (ast.Call, ast.Attribute, ast.Name)):
-            todo.extend(ast.iter_child_nodes(node))
+            todo.extend((child, bound) for child in ast.iter_child_nodes(node))
             continue
         name = _get_ast_node_name(node)
+        is_bound = name.split(".", 1)[0] in bound
         name = aliases.get(name, name)
         if isinstance(node, ast.Call):
-            variables.append(Variable(name, roles=["callable"]))
-            todo.extend(node.args)
-            todo.extend(node.keywords)
-        else:
+            if not is_bound:
+                variables.append(Variable(name, roles=["callable"]))
+            todo.extend((arg, bound) for arg in node.args)
+            todo.extend((keyword, bound) for keyword in node.keywords)
+        elif not is_bound:
             variables.append(Variable(name, roles=["value"]))
 
     return variables
